@@ -114,8 +114,8 @@ theorem Eqv.congr {c : Cfg} {s u s1 u1 : Engine} (h : Eqv c s u) (fs : RFrame s 
     (hm : IdEq s1.idmap u1.idmap) (hi : s1.interner = u1.interner) (hv : s1.vecs = u1.vecs) : Eqv c s1 u1 := by
   refine ⟨hm, hi, hv, ?_, ?_, ?_, ?_, ?_⟩
   · intro n; rw [fs.runs, fu.runs]; exact h.tomb n
-  · intro n rel; unfold Engine.neighbors; rw [fs.runs, fs.segs, fu.runs, fu.segs]; exact h.out n rel
-  · intro n rel; unfold Engine.incoming; rw [fs.runs, fs.segs, fu.runs, fu.segs]; exact h.inc n rel
+  · intro n rel; rw [neighbors_eq]; unfold Engine.neighborsFlushed; rw [fs.runs, fs.segs, fu.runs, fu.segs]; exact h.out n rel
+  · intro n rel; rw [incoming_eq]; unfold Engine.incomingFlushed; rw [fs.runs, fs.segs, fu.runs, fu.segs]; exact h.inc n rel
   · intro n k; unfold Engine.nodeProp
     rw [fs.runs, fu.runs, visibleStore_congr fs.store fs.root fs.storeRoot, visibleStore_congr fu.store fu.root fu.storeRoot]
     exact h.nprop n k
